@@ -55,6 +55,20 @@ def run(prop, tier):
                 rep.violation("ThreadedWriter: %s" % a[2], {"engine": "conc", "module": "checks_c19", "scenario": sc, "schedule": h["schedule"], "history": h["ev"]})
         if hs:
             rep.sample({"scenario": {k: hs[0][0][k] for k in ("threads", "fail", "cycles", "inline")}, "history": hs[0][1]["ev"]})
+        # logging must not block on slow output: a stalled destination, thousands of messages offered meanwhile (real queue, real threads)
+        res = run_scenarios([{"kind": "writer_stall", "n": 3000 if quick else 20000, "patience_s": 8, "fixed_schedule": []}],
+                            extra_path=[os.path.join(HARNESS, "stubs")])
+        h = res[0]["runs"][0]
+        acc, st = tlc_accepts("StallA", "StallA.cfg", [h])
+        rep.cov["states"] += st
+        rep.cov["transitions"] += st
+        rep.cov["traces_validated_against_impl"] += 1
+        rep.count_case(["stall", h["n"]], True)
+        if acc[0] is None:
+            raise MachineryFailure("no verdict for the stalled-destination run")
+        if acc[0][2]:
+            rep.violation("ThreadedWriter with a stalled destination: %s" % acc[0][2],
+                          {"engine": "conc", "module": "checks_c19", "scenario": res[0]["scenario"], "schedule": [], "history": h})
     except MachineryFailure as e:
         print("MACHINERY-FAILURE %s: %s" % (prop, e))
         rep.finish()
